@@ -19,7 +19,8 @@ EXTENDS Integers, Sequences, FiniteSets, TLC, Json
 CONSTANTS
   Kind,          \* "mc": multicast.UDPPeer receivers + writer; "pc": one sonic.PacketConn
   NR,            \* receivers 1..NR
-  Binds,         \* bind forms of the receivers: "any" (":P"), "grp" ("<first group>:P")
+  Binds,         \* bind forms of the receivers: "any" (":P"), "grp" ("<first group>:P"), ...
+  WBinds,        \* bind forms of the writer: "any0" (":0"), "if0" ("<interface address>:0")
   NG,            \* number of groups: "g1" .. "g<NG>"
   Sources,       \* {"real", "phantom"}: only "real" ever sends
   NS,            \* raw senders (pc mode)
@@ -39,15 +40,17 @@ VARIABLES km,    \* kernel: km[p][g] = [mode, srcs, sfl]     (ip_mc_socklist ent
           ws,    \* writer: [kloop, cloop, kttl, cttl, kif, cif, cip]
           wp,    \* writer: parked write [op, g, did, cls, api] (op = 0: none)
           bnd,   \* bind form per receiver
+          wb,    \* bind form of the writer
           nd, nop, steps,
           m,     \* monitor state
           hist, done
 
-implvars == <<km, kq, rr, ws, wp, bnd, nd, nop, steps>>
+implvars == <<km, kq, rr, ws, wp, bnd, wb, nd, nop, steps>>
 vars == <<implvars, m, hist, done>>
 
 Mon == INSTANCE DatagramMon
 
+DispatchLimit == 32             \* sonic.MaxCallbackDispatch
 Rcv == 1..NR
 W == 3                          \* socket id of the writer (mc mode)
 HasW == Kind = "mc" /\ ({"wr", "wset"} \cap Acts # {})
@@ -55,14 +58,17 @@ GrpSeq == [k \in 1..NG |-> "g" \o ToString(k)]
 Groups == {GrpSeq[k] : k \in DOMAIN GrpSeq}
 G1 == GrpSeq[1]
 
-LenOf(cls) == IF cls = "S" THEN 1 ELSE 3
+LenOf(cls) == IF cls = "S" THEN 1 ELSE IF cls = "L" THEN 3 ELSE 9     \* "X": larger than any UDP payload
 CapOf(buf) == IF buf = 1 THEN 4 ELSE 2
 Bufs == {1, 2}
 
 \* mc: "any" = ":P", "grp" = "<g1>:P", "if" = "<interface address>:P" (never receives multicast);
 \* pc: "lo" "localhost" "empty" "port0" "if" - all the same to the model
+\*     "empty0" = "", "lo0" = "localhost:0", "if0" = "<interface address>:0", "grp0" = "<g1>:0": own ephemeral
+\*     port, so nothing of the scenario's traffic is addressed to them (constructor/getter coverage)
 BindIp(b) == IF b = "any" THEN "0.0.0.0" ELSE IF b = "grp" THEN G1
-             ELSE IF b = "if" /\ Kind = "mc" THEN "ifip" ELSE "lo"
+             ELSE IF b = "if" /\ Kind = "mc" THEN "ifip"
+             ELSE IF b \in {"empty0", "lo0", "if0", "grp0"} THEN "other-port" ELSE "lo"
 RPort == 1
 WPort == 2
 XPortPc == 5
@@ -176,24 +182,27 @@ RcvSeq == [p \in Rcv |-> p]
 RECURSIVE Flat(_)
 Flat(ss) == IF ss = <<>> THEN <<>> ELSE Head(ss) \o Flat(Tail(ss))
 
-Prologue(b) ==
+WIp(w) == IF w = "if0" THEN "ifip" ELSE "0.0.0.0"
+
+Prologue(b, w) ==
   <<[E0 EXCEPT !.ev = "Begin"]>>
-  \o Flat([p \in Rcv |-> <<EvOpen(p, Kind, BindIp(b[p]), RPort)>>
+  \o Flat([p \in Rcv |-> <<EvOpen(p, Kind, BindIp(b[p]), IF BindIp(b[p]) = "other-port" THEN 20 + p ELSE RPort)>>
                           \o (IF Kind = "mc" THEN <<FreshSample(p, BindIp(b[p]) \o ":1")>> ELSE <<>>)])
-  \o (IF HasW THEN <<EvOpen(W, "mc", "0.0.0.0", WPort), FreshSample(W, "0.0.0.0:2")>> ELSE <<>>)
+  \o (IF HasW THEN <<EvOpen(W, "mc", WIp(w), WPort), FreshSample(W, "0.0.0.0:2")>> ELSE <<>>)
   \o (IF PreJoin THEN Flat([p \in Rcv |-> [k \in DOMAIN GrpSeq |-> EvMem(p, "Join", GrpSeq[k], "", "nil")]]) ELSE <<>>)
 
 Init ==
   /\ bnd \in [Rcv -> Binds]
+  /\ wb \in (IF HasW THEN WBinds ELSE {"any0"})
   /\ km = [p \in Rcv |-> [g \in Groups |-> IF PreJoin THEN [mode |-> "ex", srcs |-> {}, sfl |-> FALSE] ELSE NoMem]]
   /\ kq = [p \in Rcv |-> <<>>]
   /\ rr = [p \in Rcv |-> Idle]
   /\ ws = W0
   /\ wp = [op |-> 0, g |-> "", did |-> 0, cls |-> "", api |-> ""]
   /\ nd = 1 /\ nop = 1 /\ steps = 0
-  /\ m = Mon!ApplyAll(Mon!M0, Prologue(bnd))
+  /\ m = Mon!ApplyAll(Mon!M0, Prologue(bnd, wb))
   /\ hist = << [a |-> "Cfg", kind |-> Kind, binds |-> [p \in Rcv |-> bnd[p]], writer |-> HasW,
-                prejoin |-> PreJoin, groups |-> GrpSeq] >>
+                prejoin |-> PreJoin, groups |-> GrpSeq, wbind |-> wb] >>
   /\ done = FALSE
 
 Emit(es, h) == /\ m' = Mon!ApplyAll(m, es)
@@ -207,7 +216,7 @@ DoMem(p, api, g, s) ==
   /\ km' = [km EXCEPT ![p][g] = r.k]
   /\ Emit(<<EvMem(p, api, g, s, r.err)>>, [a |-> "Mem", p |-> p, api |-> api, g |-> g, s |-> s, x |-> r.err])
   /\ Tick
-  /\ UNCHANGED <<kq, rr, ws, wp, bnd, nd, nop>>
+  /\ UNCHANGED <<kq, rr, ws, wp, bnd, wb, nd, nop>>
 
 MemStep ==
   /\ "mem" \in Acts
@@ -220,15 +229,15 @@ Targets(g, s) == {p \in Rcv : KDeliver(p, g, s)}
 
 Queue(T, d) == [p \in Rcv |-> IF p \in T THEN Append(kq[p], d) ELSE kq[p]]
 
-SendMc(g, cls) ==
+SendMc(g, cls, snd) ==
   LET T == Targets(g, "real")
-      d == [did |-> nd, cls |-> cls, src |-> "real", sport |-> 9] IN
+      d == [did |-> nd, cls |-> cls, src |-> "real", sport |-> 8 + snd] IN
   /\ kq' = Queue(T, d)
   /\ nd' = nd + 1
-  /\ Emit(<<EvSend(g, RPort, 1, "real", 9, nd, cls)>>,
-          [a |-> "Send", g |-> g, cls |-> cls, snd |-> 1, x |-> SeqOfSet(T)])
+  /\ Emit(<<EvSend(g, RPort, 1, "real", 8 + snd, nd, cls)>>,
+          [a |-> "Send", g |-> g, cls |-> cls, snd |-> snd, x |-> SeqOfSet(T)])
   /\ Tick
-  /\ UNCHANGED <<km, rr, ws, wp, bnd, nop>>
+  /\ UNCHANGED <<km, rr, ws, wp, bnd, wb, nop>>
 
 SendPc(snd, cls) ==
   LET d == [did |-> nd, cls |-> cls, src |-> "lo", sport |-> 10 + snd] IN
@@ -237,12 +246,34 @@ SendPc(snd, cls) ==
   /\ Emit(<<EvSend(BindIp(bnd[1]), RPort, 0, "lo", 10 + snd, nd, cls)>>,
           [a |-> "Send", g |-> "", cls |-> cls, snd |-> snd, x |-> <<1>>])
   /\ Tick
-  /\ UNCHANGED <<km, rr, ws, wp, bnd, nop>>
+  /\ UNCHANGED <<km, rr, ws, wp, bnd, wb, nop>>
+
+\* a burst of BurstLen small datagrams from one sender (longer than the dispatch limit)
+BurstLen == DispatchLimit + 2
+
+SendBurst(g, snd) ==
+  LET mc  == Kind = "mc"
+      T   == IF mc THEN Targets(g, "real") ELSE {1}
+      ds  == [k \in 1..BurstLen |-> [did |-> nd + k - 1, cls |-> "S", src |-> (IF mc THEN "real" ELSE "lo"),
+                                      sport |-> (IF mc THEN 9 ELSE 10 + snd)]]
+      evs == [k \in 1..BurstLen |->
+                IF mc THEN EvSend(g, RPort, 1, "real", 9, nd + k - 1, "S")
+                      ELSE EvSend(BindIp(bnd[1]), RPort, 0, "lo", 10 + snd, nd + k - 1, "S")]
+  IN
+  /\ "burst" \in Acts
+  /\ nd + BurstLen <= 250
+  /\ kq' = [p \in Rcv |-> IF p \in T THEN kq[p] \o ds ELSE kq[p]]
+  /\ nd' = nd + BurstLen
+  /\ Emit(evs, [a |-> "Burst", g |-> g, snd |-> snd, n |-> BurstLen, x |-> SeqOfSet(T)])
+  /\ Tick
+  /\ UNCHANGED <<km, rr, ws, wp, bnd, wb, nop>>
+
+BurstStep == IF Kind = "mc" THEN \E g \in Groups : SendBurst(g, 1) ELSE \E snd \in 1..NS : SendBurst("", snd)
 
 SendStep ==
   /\ "send" \in Acts
   /\ \E cls \in {"S", "L"} :
-       IF Kind = "mc" THEN \E g \in Groups : SendMc(g, cls) ELSE \E snd \in 1..NS : SendPc(snd, cls)
+       \E snd \in 1..NS : IF Kind = "mc" THEN \E g \in Groups : SendMc(g, cls, snd) ELSE SendPc(snd, cls)
 
 \* ------------------------------------------------------------------ reads
 AsyncApi == IF Kind = "mc" THEN "AsyncRead" ELSE "AsyncReadFrom"
@@ -260,7 +291,7 @@ ReadSync(p, buf) ==
             /\ kq' = [kq EXCEPT ![p] = Tail(@)]
   /\ nop' = nop + 1
   /\ Tick
-  /\ UNCHANGED <<km, rr, ws, wp, bnd, nd>>
+  /\ UNCHANGED <<km, rr, ws, wp, bnd, wb, nd>>
 
 \* AsyncRead: read.b = b; read.fn = fn; below the dispatch limit recvfrom now,
 \* would-block (or the limit) parks the reactor record
@@ -278,7 +309,7 @@ ReadAsync(p, api, buf, lim) ==
             /\ UNCHANGED kq
   /\ nop' = nop + 1
   /\ Tick
-  /\ UNCHANGED <<km, ws, wp, bnd, nd>>
+  /\ UNCHANGED <<km, ws, wp, bnd, wb, nd>>
 
 \* SetAsyncReadBuffer: read.b = to
 SetBuf(p, buf) ==
@@ -287,11 +318,28 @@ SetBuf(p, buf) ==
   /\ rr' = [rr EXCEPT ![p].cur = buf]
   /\ Emit(<<EvSetBuf(p, buf)>>, [a |-> "SetBuf", p |-> p, buf |-> buf])
   /\ Tick
-  /\ UNCHANGED <<km, kq, ws, wp, bnd, nd, nop>>
+  /\ UNCHANGED <<km, kq, ws, wp, bnd, wb, nd, nop>>
+
+\* AsyncRead whose callback issues the next AsyncRead: the completions nest inline
+\* until recvfrom would block, the last read parks
+ReadChain(p, buf) ==
+  /\ "chain" \in Acts
+  /\ rr[p].st = "idle" /\ kq[p] # <<>>
+  /\ LET n == Mon!Min(Len(kq[p]), DispatchLimit)      \* the (limit+1)-th nested AsyncRead is parked unread
+         evs == Flat([k \in 1..n |-> <<EvRdCall(p, nop + k - 1, AsyncApi, buf),
+                                        EvRdDone(p, nop + k - 1, AsyncApi, kq[p][k], buf, 1)>>])
+                \o <<EvRdCall(p, nop + n, AsyncApi, buf)>>
+     IN /\ Emit(evs, [a |-> "Chain", p |-> p, api |-> AsyncApi, buf |-> buf, x |-> n])
+        /\ kq' = [kq EXCEPT ![p] = SubSeq(@, n + 1, Len(@))]
+        /\ rr' = [rr EXCEPT ![p] = [st |-> "parked", op |-> nop + n, buf0 |-> buf, cur |-> buf, api |-> AsyncApi]]
+        /\ nop' = nop + n + 1
+  /\ Tick
+  /\ UNCHANGED <<km, ws, wp, bnd, wb, nd>>
 
 RdStep ==
   /\ "rd" \in Acts
   /\ \E p \in Rcv, buf \in Bufs :
+       \/ ReadChain(p, buf)
        \/ ReadSync(p, buf)
        \/ \E lim \in BOOLEAN : ReadAsync(p, AsyncApi, buf, lim)
        \* packet.go: asyncReadNow calls back after one datagram whether or not readAll is set
@@ -301,14 +349,19 @@ RdStep ==
 
 \* ----------------------------------------------------------------- writer
 WrEvents(op, api, g, did, cls) ==
-  IF Kind = "mc"
+  IF cls = "X"        \* sendto fails with EMSGSIZE: the error is reported, nothing is emitted
+    THEN LET p == IF Kind = "mc" THEN W ELSE 1 IN
+         <<[EvWr(p, op, api, IF Kind = "mc" THEN g ELSE "lo", IF Kind = "mc" THEN RPort ELSE XPortPc,
+                 IF Kind = "mc" THEN 1 ELSE 0, Kind # "mc" \/ ws.kloop, did, cls) EXCEPT !.err = "emsgsize", !.n = 0],
+           EvWire(op, 0, "", 0, "", 0, 0, cls)>>
+  ELSE IF Kind = "mc"
     THEN <<EvWr(W, op, api, g, RPort, 1, ws.kloop, did, cls),
            EvWire(op, IF ws.kloop THEN 1 ELSE 0, g, RPort, "real", WPort, did, cls)>>
     ELSE <<EvWr(1, op, api, "lo", XPortPc, 0, TRUE, did, cls),
            EvWire(op, 1, "lo", XPortPc, "lo", RPort, did, cls)>>
 
 WrQueue(g, did, cls) ==
-  IF Kind = "mc" /\ ws.kloop
+  IF Kind = "mc" /\ ws.kloop /\ cls # "X"
     THEN Queue(Targets(g, "real"), [did |-> did, cls |-> cls, src |-> "real", sport |-> WPort])
     ELSE kq
 
@@ -318,7 +371,7 @@ WriteNow(api, g, cls) ==
   /\ Emit(WrEvents(nop, api, g, nd, cls), [a |-> "Wr", api |-> api, g |-> g, cls |-> cls, lim |-> FALSE, x |-> "done"])
   /\ nd' = nd + 1 /\ nop' = nop + 1
   /\ Tick
-  /\ UNCHANGED <<km, rr, ws, wp, bnd>>
+  /\ UNCHANGED <<km, rr, ws, wp, bnd, wb>>
 
 \* at the dispatch limit the write reactor record is parked and sendto happens in the poll
 WritePark(api, g, cls) ==
@@ -328,11 +381,11 @@ WritePark(api, g, cls) ==
   /\ hist' = Append(hist, [a |-> "Wr", api |-> api, g |-> g, cls |-> cls, lim |-> TRUE, x |-> "parked"])
   /\ nd' = nd + 1 /\ nop' = nop + 1
   /\ Tick
-  /\ UNCHANGED <<km, kq, rr, ws, bnd, m>>
+  /\ UNCHANGED <<km, kq, rr, ws, bnd, wb, m>>
 
 WrStep ==
   /\ "wr" \in Acts
-  /\ \E cls \in {"S", "L"}, g \in (IF Kind = "mc" THEN Groups ELSE {""}) :
+  /\ \E cls \in ({"S", "L"} \cup (IF "oversize" \in Acts THEN {"X"} ELSE {})), g \in (IF Kind = "mc" THEN Groups ELSE {""}) :
        \/ WriteNow(IF Kind = "mc" THEN "Write" ELSE "WriteTo", g, cls)
        \/ WriteNow(IF Kind = "mc" THEN "AsyncWrite" ELSE "AsyncWriteTo", g, cls)
        \/ WritePark(IF Kind = "mc" THEN "AsyncWrite" ELSE "AsyncWriteTo", g, cls)
@@ -341,7 +394,7 @@ DoWSet(api, v, w) ==
   /\ ws' = w
   /\ Emit(<<EvSet(api, v), WSample(api, w)>>, [a |-> "WSet", api |-> api, v |-> v])
   /\ Tick
-  /\ UNCHANGED <<km, kq, rr, wp, bnd, nd, nop>>
+  /\ UNCHANGED <<km, kq, rr, wp, bnd, wb, nd, nop>>
 
 WSetStep ==
   /\ "wset" \in Acts /\ Kind = "mc"
@@ -368,7 +421,7 @@ Poll ==
   /\ LET kq1 == [p \in Rcv |-> IF p \in Ready THEN Tail(kq[p]) ELSE kq[p]]
          wev == IF wp.op = 0 THEN <<>> ELSE WrEvents(wp.op, wp.api, wp.g, wp.did, wp.cls)
      IN
-     /\ kq' = IF wp.op # 0 /\ Kind = "mc" /\ ws.kloop
+     /\ kq' = IF wp.op # 0 /\ Kind = "mc" /\ ws.kloop /\ wp.cls # "X"
                 THEN [p \in Rcv |-> IF p \in Targets(wp.g, "real")
                                       THEN Append(kq1[p], [did |-> wp.did, cls |-> wp.cls, src |-> "real", sport |-> WPort])
                                       ELSE kq1[p]]
@@ -377,14 +430,14 @@ Poll ==
              [a |-> "Poll", x |-> SeqOfSet(Ready), w |-> (wp.op # 0)])
   /\ rr' = [p \in Rcv |-> IF p \in Ready THEN Idle ELSE rr[p]]
   /\ wp' = [op |-> 0, g |-> "", did |-> 0, cls |-> "", api |-> ""]
-  /\ UNCHANGED <<km, ws, bnd, nd, nop, steps>>
+  /\ UNCHANGED <<km, ws, bnd, wb, nd, nop, steps>>
 
 \* ------------------------------------------------------------------- next
 Step ==
   /\ UNCHANGED done
   /\ \/ Poll
      \/ /\ steps < MaxSteps
-        /\ (MemStep \/ SendStep \/ RdStep \/ WrStep \/ WSetStep)
+        /\ (MemStep \/ SendStep \/ BurstStep \/ RdStep \/ WrStep \/ WSetStep)
 
 Finish == /\ ~done /\ done' = TRUE /\ UNCHANGED <<implvars, m, hist>>
 
